@@ -1,10 +1,8 @@
 import EAO.Model.Basic
 import EAO.Model.Assemble
-import EAO.Model.Translate
 import EAO.Model.Grid
 import EAO.Model.Param
 import EAO.Model.Contract
-import EAO.Model.Split
 /-!
 # EAO.Model.SplitBuild — `Portfolio.setup_split_optim_problem` for portfolios of contracts and transports
 
